@@ -734,6 +734,21 @@ func (x *Exec) binop(fr *Frame, st *State, t *ssa.BinOp) Val {
 			x.assume(st, bitAxioms("or", r, A, B, rt))
 			return mk(smtIte(cond, "(+ "+A+" "+B+")", r))
 		}
+		// x | c with a positive constant c whose lowest set bit is 2^a and 0 <= x < 2^a is x + c
+		for side := 0; side < 2; side++ {
+			cv, ct, ot := t.Y, B, A
+			if side == 1 {
+				cv, ct, ot = t.X, A, B
+			}
+			if n, ok := termConstBig(cv, ct); ok && n.Sign() > 0 {
+				if a := int(n.TrailingZeroBits()); a > 0 && a < 64 {
+					cond := smtAnd("(<= 0 "+ot+")", "(< "+ot+" "+pow2str(a)+")")
+					r := x.define("bor", "Int", "(bor "+A+" "+B+")")
+					x.assume(st, bitAxioms("or", r, A, B, rt))
+					return mk(smtIte(cond, "(+ "+A+" "+B+")", r))
+				}
+			}
+		}
 		r := x.define("bor", "Int", "(bor "+A+" "+B+")")
 		x.assume(st, bitAxioms("or", r, A, B, rt))
 		return mk(r)
